@@ -61,6 +61,51 @@ fn main() {
         //   sweep <timeout_ns> <now_ns> <n> {<id> <status> <hb_ns> <running>}*
         //   heartbeat <worker_id> <hb_running> <hb_events> <now_ns> <n> {<id> <status> <hb_ns> <running>}*
         //   round_robin <counter> <n> {<id> <running> <cores>}*      least_loaded <n> {<id> <running> <cores>}*
+        // inject: Coordinator::resolve_inject_target on a hand-built group: pipelines p (two replicas p#0 / p#1, round robin) and q, routes Temp* -> p and Hum -> q,
+        // placements on three workers; every sequence of <= 6 injections over {Temp1, Hum, Other} and an unknown group / an undeployed replica
+        "inject" => {
+            use varpulis_cluster::coordinator::{Coordinator, InjectEventRequest};
+            use varpulis_cluster::pipeline_group::{DeployedPipelineGroup, InterPipelineRoute, PartitionStrategy, PipelineDeployment, PipelineDeploymentStatus, PipelineGroupSpec, PipelinePlacement, ReplicaGroup};
+            use varpulis_cluster::worker::WorkerId;
+            let mut bad: Vec<String> = Vec::new(); let mut count = 0usize;
+            let types = ["Temp1", "Hum", "Other"];
+            for deployed_all in [true, false] {
+                for len in 1..=6u32 { for sid in 0..3usize.pow(len) {
+                    let spec = PipelineGroupSpec { name: "g".into(), pipelines: vec![
+                        PipelinePlacement { name: "p".into(), source: String::new(), worker_affinity: None, replicas: 2, partition_key: None },
+                        PipelinePlacement { name: "q".into(), source: String::new(), worker_affinity: None, replicas: 1, partition_key: None }],
+                        routes: vec![InterPipelineRoute { from_pipeline: "_external".into(), to_pipeline: "p".into(), event_types: vec!["Temp*".into()], nats_subject: None },
+                                     InterPipelineRoute { from_pipeline: "_external".into(), to_pipeline: "q".into(), event_types: vec!["Hum".into()], nats_subject: None }] };
+                    let mut g = DeployedPipelineGroup::new("gid".into(), "g".into(), spec);
+                    let dep = |w: &str, pid: &str| PipelineDeployment { worker_id: WorkerId(w.into()), worker_address: format!("http://{w}"), worker_api_key: format!("key-{w}"), pipeline_id: pid.into(), status: PipelineDeploymentStatus::Running, epoch: 0 };
+                    g.placements.insert("p#0".into(), dep("w0", "id-p0"));
+                    if deployed_all { g.placements.insert("p#1".into(), dep("w1", "id-p1")); } else { g.placements.insert("p".into(), dep("w9", "id-p")); }   // an entry under the logical name must not stand in for a missing replica
+                    g.placements.insert("q".into(), dep("w2", "id-q"));
+                    g.replica_groups.insert("p".into(), ReplicaGroup::new("p".into(), vec!["p#0".into(), "p#1".into()], PartitionStrategy::RoundRobin));
+                    let mut c = Coordinator::new();
+                    c.pipeline_groups.insert("gid".into(), g);
+                    let mut x = sid; let mut loads = [0usize; 2]; let mut rr = 0usize;
+                    for _ in 0..len {
+                        let ty = types[x % 3]; x /= 3;
+                        let ev = InjectEventRequest { event_type: ty.into(), fields: Default::default() };
+                        count += 1;
+                        if c.resolve_inject_target("nobody", &ev).is_ok() && bad.len() < 3 { bad.push("an unknown group resolves to a target".into()) }
+                        let r = c.resolve_inject_target("gid", &ev);
+                        let (want_name, want_worker) = if ty == "Hum" { ("q".to_string(), "w2") } else { let i = rr % 2; rr += 1; (format!("p#{i}"), if i == 0 { "w0" } else { "w1" }) };
+                        match r {
+                            Ok(t) => {
+                                if (t.target_name != want_name || t.worker_id != want_worker || t.api_key != format!("key-{want_worker}") || !t.url.starts_with(&format!("http://{want_worker}/"))) && bad.len() < 3 {
+                                    bad.push(format!("event {ty} (injection sequence code {sid}, length {len}): resolved to {} on {} ({}), expected {want_name} on {want_worker}", t.target_name, t.worker_id, t.url)) }
+                                if ty != "Hum" { loads[if t.target_name == "p#0" { 0 } else { 1 }] += 1 }
+                            }
+                            Err(e) => if (deployed_all || want_name != "p#1") && bad.len() < 3 { bad.push(format!("event {ty}: resolution failed ({e}) although {want_name} is deployed")) },
+                        }
+                        if deployed_all && loads[0].abs_diff(loads[1]) > 1 && bad.len() < 3 { bad.push(format!("round-robin loads {loads:?} differ by more than one")) }
+                    }
+                } }
+            }
+            if bad.is_empty() { println!("OK inject: {count} injections resolve as routing and replica selection say") } else { println!("REPRODUCED inject: {}", bad.join("; ")) }
+        }
         "workers" => {
             use std::collections::HashMap;
             use std::time::{Duration, Instant};
